@@ -145,6 +145,21 @@ theorem C16_ping_timeout_closes (r p c : Bool) (is : List In)
     ∃ d, s.cur = some d ∧ (step s .pingTick).2 = [.closed d, .downNear] ∧ (step s .pingTick).1.pingThread = false :=
   ping_unanswered_closes _ (C16_invariant r p c is) ht ho hc
 
+/-- When the loop delivers a deferred 'disconnected' announcement to the layers, the keep-alive is stopped and forgets its
+    unanswered pings: from then on no ping of an earlier connection counts against a later one. -/
+theorem C16_down_resets_keepalive (r p c : Bool) (is : List In)
+    (h : 0 < (run { reconnectOpt := r, passive := p, control := c } is).1.pendingDown) :
+    let s2 := step (run { reconnectOpt := r, passive := p, control := c } is).1 .loop
+    s2.1.outstanding = 0 ∧ s2.1.pingThread = false ∧ Out.downAll ∈ s2.2 :=
+  drain_keepalive _ _ (Nat.le_refl _) h
+
+/- Until that announcement is delivered the keep-alive cannot know: a ping written to the closed connection still counts as unanswered when
+   the next one is due, even if a new connection is already up (found by the thorough tier; within the property — a ping WAS unanswered). -/
+example : (run {} [.connectReq, .dConnected 0, .success, .pingTick, .dClosed 0, .connectReq, .dConnected 1, .pingTick]).2 =
+    [.created 0, .up, .authAttempt false, .authed, .pingSent, .written 0, .closed 0, .downNear, .created 1, .up, .authAttempt false,
+     .closed 1, .downNear] := by
+  decide
+
 /-- Why the three repairs were needed (pinned-tree behaviours as model witnesses are in DESIGN §8). -/
 example : (run {} [.connectReq, .dConnected 0, .success, .pingTick, .pong true, .pingTick, .pingTick, .loop]).2 =
     [.created 0, .up, .authAttempt false, .authed, .pingSent, .written 0, .pingSent, .written 0, .closed 0, .downNear, .downAll] := by
